@@ -46,11 +46,16 @@ fn main() {
     let mut out: Vec<Violation> = Vec::new();
     let (mut systems, mut checked, mut excl_degenerate, mut excl_illcond, mut excl_branch, mut excl_not_exact) = (0usize, 0usize, 0usize, 0usize, 0usize, 0usize);
     let mut iter_hist = [0usize; 10];
+    let mut short_features = 0usize;
     for i in 0..n {
         let pert = *rng.pick(&[1e-4, 1e-3, 1e-2]);
         // (now and then a sketch several times larger: size-dependent paths)
         let max_cons = if rng.chance(1, 40) { 90 } else { *rng.pick(&[1usize, 2, 4, 8, 15]) };
         let sys = if rng.chance(1, 60) { gen_large_one_off(&mut rng) } else { gen_planted(&mut rng, max_cons, pert, &SHAPES) };
+        // (now and then with a short, fully determined feature: guards that are wider than documented)
+        let short = rng.chance(1, 10);
+        let base_len = sys.guesses.len();
+        let sys = if short { short_features += 1; with_short_feature(&mut rng, sys) } else { sys };
         let _ = i;
         systems += 1;
         let xs = sys.planted.clone().unwrap();
@@ -70,9 +75,6 @@ fn main() {
         let s0 = signature(&sys, &xs);
         // (no exclusion on the implementation's own degenerate flags: a request wrongly flagged
         // degenerate at a healthy plant must not hide; the independent guard-band test below decides)
-        if false {
-            excl_degenerate += 1;
-        }
         let mut same = signature(&sys, &x0) == s0;
         let guard_at = |y: &[f64]| sys.reqs.iter().any(|r| {
             let g = ezpz_verif_harness::geom::geom_err(r.constraint(), y, sys.scale);
@@ -80,7 +82,9 @@ fn main() {
         });
         same &= !guard_at(&x0);
         for _ in 0..6 {
-            let y: Vec<f64> = xs.iter().map(|v| v + 2.0 * pert * sys.scale * rng.sym()).collect();
+            // (the coordinates of a short feature are sampled within its own ball, 0.3 x its size)
+            let feat = if xs.len() > base_len + 3 { (xs[base_len] - xs[base_len + 2]).hypot(xs[base_len + 1] - xs[base_len + 3]) } else { 0.0 };
+            let y: Vec<f64> = xs.iter().enumerate().map(|(j, v)| v + if j >= base_len { (0.3 * feat).min(0.009 * sys.scale) } else { 2.0 * pert * sys.scale } * rng.sym()).collect();
             same &= signature(&sys, &y) == s0 && !guard_at(&y);
         }
         // point-on-arc plants must be comfortably inside the sweep, and geometry not tiny
@@ -144,7 +148,21 @@ fn main() {
         // a plant at which the independent reference iteration is slow or fails as well is degenerate in
         // the sense that matters here (singular solution: linear, not Newton-type, convergence)
         let reference_fast = || reference_gauss_newton(&sys.reqs, &x0, sys.convergence_tolerance.max(1e-10), 8).is_some();
+        // a singular solution: the equations' linearisation loses rank exactly at the plant (equations
+        // that are redundant only there, e.g. a point-line distance beside a perpendicular and a
+        // length), while nearby points have the generic, higher rank.  Newton-type convergence is not
+        // available at such a solution in exact arithmetic either; it is degenerate in the property's
+        // sense.  Decided from finite differences of the error measures (not the solver's Jacobian or
+        // SVD), and only consulted when a violation is about to be reported.
+        let singular_solution = || -> bool {
+            if xs.len() > 260 { return false; }
+            let at_plant = fd_rank(&sys.reqs, &xs, 1e-5);
+            let near = fd_rank(&sys.reqs, &x0, 1e-5);
+            at_plant < near
+        };
         match solve(&sys.reqs, sys.guesses.clone(), sys.config()) {
+            Err(_) if wk.is_empty() && singular_solution() => excl_degenerate += 1,
+            Ok(o) if wk.is_empty() && (o.is_unsatisfied() || o.iterations() > 8) && singular_solution() => excl_degenerate += 1,
             Err(e) => bad(format!("solve fails ({:?}) although every guess is within {pert}*scale of an exact solution", e.error), format!("fails-near-solution{wk}:{}", kinds.join("+"))),
             Ok(o) => {
                 iter_hist[o.iterations().min(9)] += 1;
@@ -178,7 +196,7 @@ fn main() {
         }
     }
     println!(
-        "STATS {{\"systems\": {systems}, \"checked\": {checked}, \"excluded_not_exact\": {excl_not_exact}, \"excluded_degenerate\": {excl_degenerate}, \"excluded_branch_switch\": {excl_branch}, \"excluded_ill_conditioned\": {excl_illcond}, \"iterations_hist\": {:?}, \"violations\": {}}}",
+        "STATS {{\"systems\": {systems}, \"checked\": {checked}, \"excluded_not_exact\": {excl_not_exact}, \"excluded_degenerate\": {excl_degenerate}, \"excluded_branch_switch\": {excl_branch}, \"excluded_ill_conditioned\": {excl_illcond}, \"with_short_feature\": {short_features}, \"iterations_hist\": {:?}, \"violations\": {}}}",
         iter_hist,
         out.len()
     );
